@@ -112,7 +112,7 @@ pub fn mix_table(mix: &str) -> Vec<(&'static str, u32)> {
         ],
         "iter" => vec![
             ("insert", 30), ("remove", 22), ("iter", 12), ("drain", 4), ("retain", 5), ("extract_if", 6),
-            ("into_iter", 2), ("shrink_to_fit", 1), ("clear", 1), ("extend", 3),
+            ("into_iter", 2), ("shrink_to_fit", 1), ("clear", 1), ("extend", 3), ("iter_default", 1),
         ],
         "two" => vec![
             ("insert", 30), ("remove", 25), ("clone", 4), ("clone_from", 8), ("eq", 6), ("get", 4),
@@ -140,7 +140,7 @@ pub fn mix_table(mix: &str) -> Vec<(&'static str, u32)> {
             ("insert", 28), ("remove", 22), ("replace", 6), ("take", 6), ("get", 5), ("contains", 4),
             ("get_or_insert", 6), ("get_or_insert_with", 6), ("s_entry_insert", 3), ("s_entry_or_insert", 3),
             ("s_entry_remove", 4), ("s_entry_get", 2), ("s_entry_into_value", 2), ("extend", 2), ("retain", 2),
-            ("extract_if", 2), ("drain", 1), ("iter", 4), ("into_iter", 1), ("shrink_to_fit", 1), ("reserve", 1),
+            ("extract_if", 2), ("drain", 1), ("iter", 4), ("into_iter", 1), ("shrink_to_fit", 1), ("reserve", 1), ("iter_default", 1),
             ("shrink_to", 1), ("clear", 1),
         ],
         "setalg" => vec![
@@ -155,7 +155,7 @@ pub fn mix_table(mix: &str) -> Vec<(&'static str, u32)> {
             ("t_entry_insert", 4), ("t_entry_and_modify", 3), ("t_entry_drop", 3), ("t_remove_reinsert", 8),
             ("t_occ_get_mut", 2), ("t_iter_hash", 6), ("retain", 2), ("t_extract_if", 3), ("drain", 1), ("iter", 4),
             ("into_iter", 1), ("clear", 1), ("reserve", 2), ("shrink_to", 2), ("t_shrink_to_fit", 2), ("try_reserve", 1),
-            ("clone", 1), ("clone_from", 2), ("t_get_many_mut", 4),
+            ("clone", 1), ("clone_from", 2), ("t_get_many_mut", 4), ("iter_default", 1),
         ],
         "tablezst" => vec![
             ("t_insert_unique", 30), ("t_remove", 24), ("t_find", 6), ("t_entry_drop", 3), ("t_remove_reinsert", 6),
